@@ -387,6 +387,24 @@ def generic_pool(tier):
     return out
 
 
+def collapse_pool(tier):
+    """Children that become a sum (product) only by being folded: a product (sum) with neutral constants around a sum (product), built
+    with the constructors (the operators drop the neutral elements), at one and two levels, inside sums and products with constants."""
+    import pymbolic.primitives as p
+    x, y = p.Variable("x"), p.Variable("y")
+    sums = [p.Sum((x, 2)), p.Sum((2, x, 3)), p.Sum((y, -1, x))]
+    prods = [p.Product((2, x)), p.Product((x, 3, y)), p.Product((-1, y))]
+    to_sum = [p.Product((1, s_)) for s_ in sums] + [p.Product((s_, 1)) for s_ in sums] + [p.Product((1, p.Product((1, s_)))) for s_ in sums[:2]] + [p.Power(s_, 1) for s_ in sums[:2]]
+    to_prod = [p.Sum((0, q)) for q in prods] + [p.Sum((q, 0)) for q in prods] + [p.Sum((0, p.Sum((0, q)))) for q in prods[:2]]
+    out = []
+    for c in (3, -2):
+        for t in to_sum:
+            out += [p.Sum((c, t)), p.Sum((t, c)), p.Sum((c, t, y)), p.Sum((x, t, c, t)), p.Product((c, p.Sum((1, t))))]
+        for t in to_prod:
+            out += [p.Product((c, t)), p.Product((t, c)), p.Product((c, t, y)), p.Product((x, t, c, t)), p.Sum((c, p.Product((2, t))))]
+    return out
+
+
 # ----------------------------------------------------------------------------- the bounded checks
 def has_float(e):
     import pymbolic.primitives as p
@@ -503,7 +521,7 @@ def b_fold(tier):
     b = BoundedRun("constant-folding", rule="ConstantFoldingMapper()(e) and CommutativeConstantFoldingMapper()(e) on the same pools: same exact rational function, same exact "
                    "value in 3 environments (an exact rational never becomes a float), at most one constant operand left in every folded sum (and product for the commutative "
                    "variant), does not raise", bound="as flatten", functions=["ConstantFoldingMapperBase.fold", "ConstantFoldingMapper", "CommutativeConstantFoldingMapper"])
-    for e in poly_pool(tier) + rational_pool(tier) + generic_pool(tier):
+    for e in poly_pool(tier) + rational_pool(tier) + generic_pool(tier) + collapse_pool(tier):
         for comm, M in ((False, ConstantFoldingMapper), (True, CommutativeConstantFoldingMapper)):
             r = outcome.run(lambda: M()(e))
             b.case((M.__name__, repr(e)), sample=dict(mapper=M.__name__, expr=repr(e)))
